@@ -9,6 +9,10 @@
 (*           limit" (t = +-HUGE, ix = TRUE).  w = "is a whole number".           *)
 (* types   : [k |-> "double", min, max, abs, rel]  rel in {0,1} = {0, 2^-3}      *)
 (*           [k |-> "int", min, max]  [k |-> "scaled", scale, min, max]          *)
+(*           [k |-> "bigint", min, max]  an int type whose limits are beyond     *)
+(*           2^53: limits and values are positions [a, d] = anchor a + offset d  *)
+(*           (anchors -2^64 -2^63 0 2^53 10^18 2^63 2^64 = a in -2..4; |d| <=    *)
+(*           2^20 near an anchor, < 2^26 at anchor 0, d = +-FAR "far from it")   *)
 (*           [k |-> "bool"]  [k |-> "enum", mem |-> << [n, v] ... >>]            *)
 (*           [k |-> "string", minc, maxc, utf8]  [k |-> "blob", minb, maxb]      *)
 (*           [k |-> "array", el, minlen, maxlen]  [k |-> "tuple", els]           *)
@@ -23,6 +27,7 @@ NoLim == 1073741824       \* 2^30 : "no limit" (+-float_info.max / UNLIMITED)
 HUGE  == 67108864         \* 2^26 ticks
 WIREBIG == 1048576        \* 2^20 : a wire integer beyond every model limit
 U == 16                   \* ticks per unit
+FAR == 134217728          \* 2^27 : offset class "far from the anchor, before the next one"
 
 Abs(a) == IF a < 0 THEN -a ELSE a
 Max2(a, b) == IF a >= b THEN a ELSE b
@@ -37,6 +42,7 @@ B(b) == [j |-> "bool", b |-> b]
 I(n) == [j |-> "int", n |-> n]
 N(t) == [j |-> "num", t |-> t, ix |-> FALSE, w |-> (t % U = 0)]
 NX(t, w) == [j |-> "num", t |-> t, ix |-> TRUE, w |-> w]
+BI(a, d) == [j |-> "bint", a |-> a, d |-> d]   \* the python int anchor(a) + d, beyond +-HUGE
 Sp(s) == [j |-> "special", s |-> s]        \* "nan" "pinf" "ninf"
 FMax(s) == [j |-> "fmax", s |-> s]         \* +-float_info.max, s in {1,-1}
 \* strings: cls in {"ascii","esc","utf8","nul"} (esc = ASCII with quote/backslash/newline), len = characters, blen = bytes when the
@@ -133,6 +139,25 @@ VInt(dt, c, path) ==
       [] c.j = "special" -> AnyErr
       [] OTHER -> {WT}
 
+(* bigint: exact integer arithmetic on positions; the result is the integer offered *)
+P(a, d) == [a |-> a, d |-> d]
+PosOf(c) == IF c.j = "bint" THEN P(c.a, c.d)
+            ELSE IF c.n >= HUGE THEN P(4, FAR) ELSE IF c.n <= -HUGE THEN P(-2, -FAR) ELSE P(0, c.n)
+PLE(p, q) == p.a < q.a \/ (p.a = q.a /\ p.d <= q.d)
+BigRes(dt, p, path) == (IF PLE(dt.min, p) /\ PLE(p, dt.max) THEN {Ok(BI(p.a, p.d))} ELSE {RE})
+                       \cup (IF path = "call" THEN {Ok(BI(p.a, p.d))} ELSE {})
+VBigInt(dt, c, path) ==
+    CASE c.j \in {"int", "bint"} -> BigRes(dt, PosOf(c), path)
+      [] c.j = "bool" -> {WT} \cup BigRes(dt, P(0, B2I(c.b)), path)
+      [] c.j = "member" -> {WT} \cup BigRes(dt, P(0, c.n), path)
+      [] c.j = "num" -> IF ~c.w THEN AnyErr
+                        ELSE IF Abs(c.t) >= HUGE THEN {WT} \cup BigRes(dt, PosOf(I(Sign(c) * HUGE)), path)   \* only floats beyond all anchors are offered
+                        ELSE {WT} \cup BigRes(dt, P(0, c.t \div U), path)
+      [] c.j = "special" -> AnyErr
+      [] OTHER -> {WT}
+(* a big integer offered to a type whose limits are all small is "beyond every model limit" *)
+Nrm(d, c) == IF d.k # "bigint" /\ c.j = "bint" THEN I(IF PLE(P(0, 0), P(c.a, c.d)) THEN HUGE ELSE -HUGE) ELSE c
+
 (* scaled: physical value on the grid k*scale; tolerance one grid step (the exact *)
 (* boundary min-scale / max+scale is not decided), result clamped on the grid;    *)
 (* a tie of the rounding may go either way                                        *)
@@ -227,9 +252,11 @@ StructKV(dt, c, prev, path, fill, i) ==
          ELSE IF fill /\ inprev THEN {<<[k |-> k, v |-> pv]>> \o r : r \in rest}
          ELSE rest
 
-Val(dt, c, prev, path) ==
+Val(dt, c0, prev, path) ==
+    LET c == Nrm(dt, c0) IN
     CASE dt.k = "double" -> VDouble(dt, c, path)
       [] dt.k = "int" -> VInt(dt, c, path)
+      [] dt.k = "bigint" -> VBigInt(dt, c, path)
       [] dt.k = "scaled" -> VScaled(dt, c, path)
       [] dt.k = "bool" -> VBool(dt, c, path)
       [] dt.k = "enum" -> VEnum(dt, c, path)
@@ -275,6 +302,7 @@ InSet(dt, v, lim) ==
            \/ v.j = "fmax" /\ (~lim \/ (v.s = 1 /\ dt.max = NoLim) \/ (v.s = -1 /\ dt.min = -NoLim))
            \/ v.j = "special" /\ ~lim                          \* NaN handed through by a driver: not decided
       [] dt.k = "int" -> v.j = "int" /\ (~lim \/ (dt.min <= v.n /\ v.n <= dt.max))
+      [] dt.k = "bigint" -> v.j = "bint" /\ (~lim \/ (PLE(dt.min, P(v.a, v.d)) /\ PLE(P(v.a, v.d), dt.max)))
       [] dt.k = "scaled" -> /\ v.j = "num"
                             /\ \/ ~lim /\ v.ix /\ Abs(v.t) >= HUGE
                                \/ ~v.ix /\ v.t % dt.scale = 0 /\ (~lim \/ (dt.min <= v.t /\ v.t <= dt.max))
@@ -301,13 +329,17 @@ NumClose(s, v, tol8) ==
             \/ ~v.ix /\ 8 * Abs(v.t - T(s)) <= tol8 + (IF Inexact(s) THEN 8 ELSE 0)
 
 RECURSIVE Denotes(_, _, _, _, _)
-Denotes(dt, c, v, prev, path) ==
+Denotes(dt, c0, v, prev, path) ==
+    LET c == Nrm(dt, c0) IN
     CASE dt.k = "double" ->
            \/ \E s \in NumSrc(c) : NumClose(s, v, IF Big(s) THEN 0 ELSE Max2(P8(dt, T(s)), P8(dt, T(s) + 1)))
            \/ c.j = "special" /\ c.s = "pinf" /\ v = FMax(1)
            \/ c.j = "special" /\ c.s = "ninf" /\ v = FMax(-1)
            \/ c.j \in {"special", "fmax"} /\ v = c
       [] dt.k = "int" -> \E s \in NumSrc(c) : Whole(s) /\ v = AsInt(s)
+      [] dt.k = "bigint" -> /\ v.j = "bint"                       \* exactly the integer offered
+                            /\ \/ c.j = "bint" /\ v = c
+                               \/ \E s \in NumSrc(c) : Whole(s) /\ P(v.a, v.d) = PosOf(AsInt(s))
       [] dt.k = "scaled" ->
            IF path = "wire"
            THEN \E s \in NumSrc(c) : Whole(s) /\ Abs(AsInt(s).n) < WIREBIG /\ v.j = "num" /\ ~v.ix
@@ -352,7 +384,7 @@ NatOnly(ns) == {n \in ns : n >= 0}
 Common == {Null, B(TRUE), B(FALSE), I(0), I(1), I(3), N(16), N(24), NX(0, FALSE),
            I(HUGE), NX(HUGE, TRUE), NX(-HUGE, FALSE), Sp("nan"), Sp("pinf"), Sp("ninf"),
            Lit("5"), Plain(0), Plain(2), L(<<>>), L(<<I(1)>>), O(<<>>), O(<<[k |-> "a", v |-> I(1)]>>),
-           Bytes(2), Mem(1, "a")}
+           Bytes(2), Mem(1, "a"), BI(1, 1), BI(-1, -1)}      \* 2^53+1 and -(2^63)-1: not representable as doubles
 
 TickForms(ts) == {N(t) : t \in ts} \cup {I(t \div U) : t \in {x \in ts : x % U = 0}}
 Tol(dt, lim) == Max2((Abs(lim) * dt.rel + 7) \div 8, dt.abs)
@@ -366,6 +398,11 @@ OwnDouble(dt) ==
     \cup {NX(t, FALSE) : t \in UNION {{l - 1, l} : l \in lo \cup hi}}
 OwnInt(dt) == LET ns == {dt.min - 1, dt.min, dt.min + 1, dt.max - 1, dt.max, dt.max + 1} IN
     {I(n) : n \in ns} \cup {N(n * U) : n \in ns} \cup {N(n * U + 8) : n \in {dt.min, dt.max}}
+CI(a, d) == IF a = 0 /\ Abs(d) < HUGE THEN I(d) ELSE BI(a, d)      \* as a candidate a small integer is an "int"
+OwnBig(dt) ==
+    UNION {{CI(p.a, p.d - 1), CI(p.a, p.d), CI(p.a, p.d + 1)} : p \in {dt.min, dt.max}}
+    \cup {BI(1, 0), BI(1, 1), BI(2, 1), BI(3, -1), BI(3, 0), BI(4, -1), BI(4, 0), BI(-1, -1), BI(-1, 0), BI(-2, 0),
+          BI(0, FAR), BI(2, FAR), I(-1), I(7)}
 OwnScaled(dt) ==
     LET s == dt.scale
         a == dt.min \div s
@@ -396,6 +433,7 @@ RECURSIVE Good(_), IVal(_), Cands(_)
 Good(dt) ==
     CASE dt.k = "double" -> {N(IF GeMin(dt, 0) /\ LeMax(dt, 0) THEN 0 ELSE IF dt.min # -NoLim THEN dt.min ELSE dt.max)}
       [] dt.k = "int" -> {I(ZeroOr(dt.min, dt.max))}
+      [] dt.k = "bigint" -> {CI(dt.max.a, dt.max.d)}
       [] dt.k = "scaled" -> {I(0)}                       \* catalogue types contain 0
       [] dt.k = "bool" -> {B(TRUE)}
       [] dt.k = "enum" -> {I(dt.mem[1].v)}
@@ -410,6 +448,7 @@ Good(dt) ==
 IVal(dt) ==
     CASE dt.k = "double" -> N(IF dt.max # NoLim THEN dt.max ELSE IF dt.min # -NoLim THEN dt.min ELSE 32)
       [] dt.k = "int" -> I(dt.max)
+      [] dt.k = "bigint" -> BI(dt.min.a, dt.min.d)
       [] dt.k = "scaled" -> N(dt.max)
       [] dt.k = "bool" -> B(FALSE)
       [] dt.k = "enum" -> Mem(dt.mem[Len(dt.mem)].v, dt.mem[Len(dt.mem)].n)
@@ -422,6 +461,7 @@ IVal(dt) ==
 Cands(dt) == Common \cup
     CASE dt.k = "double" -> OwnDouble(dt)
       [] dt.k = "int" -> OwnInt(dt)
+      [] dt.k = "bigint" -> OwnBig(dt)
       [] dt.k = "scaled" -> OwnScaled(dt)
       [] dt.k = "bool" -> {}
       [] dt.k = "enum" -> OwnEnum(dt)
@@ -472,7 +512,7 @@ Cases(dt) == UNION {{[c |-> c, p |-> p, path |-> path] : path \in PathsFor(c, p)
 
 (* ------------------------------------------------------ C02: the wire encoding *)
 WireKind(d) == CASE d.k = "double" -> "num"
-                 [] d.k \in {"int", "scaled", "enum"} -> "int"
+                 [] d.k \in {"int", "bigint", "scaled", "enum"} -> "int"
                  [] d.k = "bool" -> "bool"
                  [] d.k = "string" -> "str"
                  [] d.k = "blob" -> "b64str"
@@ -482,7 +522,7 @@ WireKind(d) == CASE d.k = "double" -> "num"
 RECURSIVE Export(_, _), KindOK(_, _), VS(_), EqModFloat(_, _, _)
 (* abstract JSON value exported for the internal value v *)
 Export(d, v) ==
-    CASE d.k \in {"double", "int", "bool", "string"} -> v
+    CASE d.k \in {"double", "int", "bigint", "bool", "string"} -> v
       [] d.k = "scaled" -> I(v.t \div d.scale)
       [] d.k = "enum" -> I(v.n)
       [] d.k = "blob" -> B64(v.len)
@@ -494,7 +534,7 @@ Export(d, v) ==
 (* the JSON value j has the kind SECoP prescribes for d, at every position *)
 KindOK(d, j) ==
     CASE WireKind(d) = "num" -> j.j = "num"
-      [] WireKind(d) = "int" -> j.j = "int"
+      [] WireKind(d) = "int" -> j.j \in {"int", "bint"}
       [] WireKind(d) = "bool" -> j.j = "bool"
       [] WireKind(d) = "str" -> j.j = "str"
       [] WireKind(d) = "b64str" -> j.j = "str" /\ j.blen >= 0
@@ -516,6 +556,8 @@ VS(d) ==
            {N(t) : t \in ts} \cup {NX(t, FALSE) : t \in {x \in {lo, hi - 1} : lo <= x /\ x + 1 <= hi}}
            \cup (IF d.max = NoLim THEN {NX(HUGE, TRUE)} ELSE {}) \cup (IF d.min = -NoLim THEN {NX(-HUGE, TRUE)} ELSE {})
       [] d.k = "int" -> {I(n) : n \in {m \in {d.min, d.min + 1, 0, d.max - 1, d.max} : d.min <= m /\ m <= d.max}}
+      [] d.k = "bigint" -> {BI(p.a, p.d) : p \in {q \in {d.min, P(d.min.a, d.min.d + 1), P(d.max.a, d.max.d - 1), d.max,
+                                                            P(1, 1), P(2, 1), P(3, -1), P(0, FAR)} : PLE(d.min, q) /\ PLE(q, d.max)}}
       [] d.k = "scaled" -> {N(t) : t \in {m \in {d.min, d.min + d.scale, 0, d.max - d.scale, d.max} : d.min <= m /\ m <= d.max}}
       [] d.k = "bool" -> {B(TRUE), B(FALSE)}
       [] d.k = "enum" -> {Mem(m.v, m.n) : m \in Rng(d.mem)}
@@ -589,7 +631,9 @@ Rebuild(i) ==
                            abs |-> GetT(i, "absolute_resolution", 0),
                            rel |-> IF HasKey(i, "relative_resolution") THEN RelOf(ValOf(i, "relative_resolution")) ELSE -1,
                            unit |-> GetS(i, "unit", ""), fmt |-> GetS(i, "fmtstr", "%g")]
-      [] ty = "int" -> [k |-> "int", min |-> GetI(i, "min", 0), max |-> GetI(i, "max", 0)]
+      [] ty = "int" -> IF ValOf(i, "min").j = "bint" \/ ValOf(i, "max").j = "bint"
+                       THEN [k |-> "bigint", min |-> PosOf(ValOf(i, "min")), max |-> PosOf(ValOf(i, "max"))]   \* limits kept exactly
+                       ELSE [k |-> "int", min |-> GetI(i, "min", 0), max |-> GetI(i, "max", 0)]
       [] ty = "scaled" -> LET sc == GetT(i, "scale", 1) IN
                           [k |-> "scaled", scale |-> sc, min |-> GetI(i, "min", 0) * sc, max |-> GetI(i, "max", 0) * sc,
                            abs |-> GetT(i, "absolute_resolution", sc),
@@ -614,6 +658,7 @@ Rebuild(i) ==
 
 (* a canonical datainfo of d: only the non-default properties (keys in sorted order) *)
 KV(k, v) == [k |-> k, v |-> v]
+PosJ(p) == IF p.a = 0 /\ Abs(p.d) < HUGE THEN I(p.d) ELSE BI(p.a, p.d)
 OptKV(cond, k, v) == IF cond THEN <<KV(k, v)>> ELSE <<>>
 Describe(d) ==
     CASE d.k = "double" ->
@@ -622,6 +667,7 @@ Describe(d) ==
              \o OptKV(d.rel # -1, "relative_resolution", N(2 * d.rel)) \o <<KV("type", Txt("double"))>>
              \o OptKV(d.unit # "", "unit", Txt(d.unit)))
       [] d.k = "int" -> O(<<KV("max", I(d.max)), KV("min", I(d.min)), KV("type", Txt("int"))>>)
+      [] d.k = "bigint" -> O(<<KV("max", PosJ(d.max)), KV("min", PosJ(d.min)), KV("type", Txt("int"))>>)
       [] d.k = "scaled" ->
            O(OptKV(d.abs # d.scale, "absolute_resolution", N(d.abs)) \o OptKV(d.fmt # "%g", "fmtstr", Txt(d.fmt))
              \o <<KV("max", I(d.max \div d.scale)), KV("min", I(d.min \div d.scale))>>
@@ -692,6 +738,7 @@ Supported(a, b) ==
              [] b.k = "bool" -> 0 <= a.min /\ a.max <= 1
              [] OTHER -> FALSE
       [] a.k = "bool" -> b.k = "bool"
+      [] a.k = "bigint" -> b.k = "bigint" /\ PLE(b.min, a.min) /\ PLE(a.max, b.max)
       [] a.k = "enum" -> b.k = "enum" /\ \A m \in Rng(a.mem) : ByVal(b, m.v) # {}
       [] a.k = "string" -> /\ b.k = "string" /\ b.minc <= a.minc /\ (a.utf8 => b.utf8)
                            /\ (b.maxc = NoLim \/ (a.maxc # NoLim /\ a.maxc <= b.maxc))
@@ -710,6 +757,7 @@ Dbl(lo, hi, a, r) == [k |-> "double", min |-> lo, max |-> hi, abs |-> a, rel |->
 IntT(lo, hi) == [k |-> "int", min |-> lo, max |-> hi]
 Scl(s, lo, hi) == [k |-> "scaled", scale |-> s, min |-> lo, max |-> hi]
 BoolT == [k |-> "bool"]
+BigT(lo, hi) == [k |-> "bigint", min |-> lo, max |-> hi]
 Enm(mem) == [k |-> "enum", mem |-> mem]
 Strg(lo, hi, u) == [k |-> "string", minc |-> lo, maxc |-> hi, utf8 |-> u]
 Blob(lo, hi) == [k |-> "blob", minb |-> lo, maxb |-> hi]
@@ -722,10 +770,11 @@ Leaves == <<Dbl(-16, 40, 0, 0), Dbl(0, 160, 4, 0), Dbl(16, 16, 0, 1), Dbl(-NoLim
             IntT(-2, 3), IntT(5, 5), Scl(4, 0, 160), Scl(32, -64, 6400), BoolT,
             Enm(<<[n |-> "a", v |-> 1], [n |-> "b", v |-> 2]>>),
             Enm(<<[n |-> "off", v |-> 0], [n |-> "on", v |-> 1], [n |-> "x", v |-> 5]>>),
-            Strg(1, 3, FALSE), Strg(0, NoLim, TRUE), Blob(1, 3), Blob(0, 6)>>
+            Strg(1, 3, FALSE), Strg(0, NoLim, TRUE), Blob(1, 3), Blob(0, 6),
+            BigT(P(0, 0), P(4, -1)), BigT(P(-1, 0), P(3, -1)), BigT(P(1, 1), P(2, 1))>>     \* UInt64, Int64, 2^53+1 .. 10^18+1
 NL == Len(Leaves)
 Lf(i) == Leaves[((i - 1) % NL) + 1]
-SmallLeaves == <<IntT(-2, 3), Scl(4, 0, 160), Strg(1, 3, FALSE), Blob(1, 3), Dbl(0, 160, 4, 0),
+SmallLeaves == <<IntT(-2, 3), Scl(4, 0, 160), BigT(P(1, 1), P(4, -1)), Blob(1, 3), Strg(1, 3, FALSE), Dbl(0, 160, 4, 0),
                  Enm(<<[n |-> "a", v |-> 1], [n |-> "b", v |-> 2]>>)>>
 NS == Len(SmallLeaves)
 Sm(i) == SmallLeaves[((i - 1) % NS) + 1]
@@ -821,7 +870,7 @@ IdempotentR(d, R) == \A r \in R : \A o \in r.allowed :
 (* apart from the documented filling of members that were not offered, the result *)
 (* does not depend on the previous value                                          *)
 PrevFreeR(d, R) == \A r \in R :
-            (d.k \in {"double", "int", "scaled", "bool", "enum", "string", "blob"} /\ r.p # None)
+            (d.k \in {"double", "int", "bigint", "scaled", "bool", "enum", "string", "blob"} /\ r.p # None)
                => r.allowed = Val(d, r.c, None, r.path)
 (* vacuity guards: the catalogue exercises acceptance, both error classes and loose cases *)
 NonVacuousR(d, R) == /\ \E r \in R : \E o \in r.allowed : o.ok
